@@ -36,7 +36,8 @@ RULE = ("history = event sequence over {key-addressed operation (get, set, delet
         "went failing -> dead -> revived, or was probed again after a retry_timeout. Address styles: distinct hosts with int ports, or one host with ports 11211+i given as int for some servers and as text for others, or 'host:port' strings. Two users at once (turns at connect / send / receive / close, two calls each, four idle connections in the pool) while the server fails, its retry is due, its retries are used up or it is back after having been given up: only the server's error or 'all servers down' escapes, nothing with ignore_exc, and the rotation recovers. Operation incr_text makes a healthy server answer with an error line (optionally hanging up afterwards, dialect hangup-after-error): that is the call's error, not a server failure - an OSError counts as a server's own error only while a server is failing. Long lives: 1500 (thorough 6000) events on one client; operation get_many_big sends 4500 keys to one (failing) server in one call."
         + ' In the two-users part an outage is a server process that died: connections made before it stay dead (restarts_kill_connections); once the server is healthy and due back (phase given-up-and-back) no call may fail.'
         + ' Given up late: a server that uses its retry budget up during an outage and is still in rotation when everything heals, a second server given up at another moment, recovery traffic every 0.9 / 3 / 7 / 13 / 29 s: placement is back within two dead_timeouts (D26).'
-        + " Broadcasts in between: every sequence of up to 5 (thorough 6) events over {get on either server's key, set_many, +1.5 s, +61 s, server 0 down / up, flush_all} with a flush_all after the failure - flush_all reaches servers out of rotation too; its contacts do not count towards the probing bounds but what it finds is a failure like any other. Scripted back-end, order of events inside a call: a server that is in rotation is never taken out unless it failed since it was put (back) in.")
+        + " Broadcasts in between: every sequence of up to 5 (thorough 6) events over {get on either server's key, set_many, +1.5 s, +61 s, server 0 down / up, flush_all} with a flush_all after the failure - flush_all reaches servers out of rotation too; its contacts do not count towards the probing bounds but what it finds is a failure like any other. Scripted back-end, order of events inside a call: a server that is in rotation is never taken out unless it failed since it was put (back) in."
+        + " Inside one call the clock stands still, so a server that is due back is due back before the call's first lookup: on the scripted back-end no key of a call is placed before a server comes back into rotation in that same call.")
 MANIFEST = {
     "category": "exploration",
     "technique": "stateful model-based exploration of failure/recovery event sequences on a virtual clock: bounded-exhaustive to a depth bound over a reduced alphabet x all retry configurations, plus Hypothesis sequences; invariants over a contact log and a routing log observed through the client_class and hasher seams",
@@ -136,6 +137,7 @@ def make_loghash(routes):
         def get_node(self, key):
             r = super().get_node(key)
             routes.append((tuple(self.nodes), key, r))
+            ORDER.append(("route", key, r))
             return r
     return LogHash
 
@@ -162,6 +164,7 @@ def make_minimal_hash(routes):
         def get_node(self, key):
             r = refhash.place(list(self.__ring), key) if self.__ring else None
             routes.append((tuple(self.__ring), key, r))
+            ORDER.append(("route", key, r))
             return r
 
         def rotation_for_the_oracle(self):
@@ -305,6 +308,7 @@ def _run(case, hc, servers, names, owner, key_of, routes, world, env, clock):
                         % (msg, hist, ns, ra, ie, case.get("backend", "scripted")))
 
     failed_since_add = {}
+    routed_in_call = []
 
     def scan_order():
         if env is not None:
@@ -317,8 +321,17 @@ def _run(case, hc, servers, names, owner, key_of, routes, world, env, clock):
                 order_run[ev_[1]] = 0 if not ev_[2] else order_run.get(ev_[1], 0) + 1
                 if ev_[2]:
                     failed_since_add[ev_[1]] = True
+            elif ev_[0] == "call":
+                routed_in_call[:] = []
+            elif ev_[0] == "route":
+                routed_in_call.append(ev_[1:])
             elif ev_[0] == "add":
                 failed_since_add[ev_[1]] = False
+                # the clock stands still inside a call: a server that is due back is due back before the call's first
+                # lookup, so every key of the call is placed over the rotation that includes it
+                if routed_in_call:
+                    V("placed-before-revival", "%r came back into rotation after the same call had already placed %r: that key was placed over a rotation the call itself replaced"
+                      % (ev_[1], routed_in_call[0]))
             else:
                 if order_run.get(ev_[1], 0) < ra + 1:
                     V("evicted-early", "%r was taken out of rotation after %d failed contact(s) in a row (since it last answered); retry_attempts=%d allows it after %d"
@@ -330,6 +343,7 @@ def _run(case, hc, servers, names, owner, key_of, routes, world, env, clock):
     def do(opn, key):
         if env is not None:
             env.net.begin_call(world["call"])
+        ORDER.append(("call",))
         try:
             if opn == "get":
                 hc.get(key)
@@ -343,10 +357,12 @@ def _run(case, hc, servers, names, owner, key_of, routes, world, env, clock):
                 # the server answers with an error line of its own (the item is not a number): the call fails with that error,
                 # the server has not failed
                 hc.set(key, "abc")
+                ORDER.append(("call",))
                 try:
                     hc.incr(key, 1)
                 except MemcacheClientError:
                     pass
+                ORDER.append(("call",))
                 hc.set(key, "1")
             elif opn == "get_many":
                 hc.get_many(list(owner))
@@ -397,6 +413,7 @@ def _run(case, hc, servers, names, owner, key_of, routes, world, env, clock):
             # flush_all goes to every server the client knows, those out of rotation included: it is not key-addressed (its
             # contacts do not count towards the probing bounds), but what it learns about a server is a failure like any other
             hist.append(("flush_all",))
+            ORDER.append(("call",))
             try:
                 hc.flush_all()
             except Exception as e:  # noqa: BLE001
